@@ -190,6 +190,60 @@ impl CaseFold {
     }
 }
 
+// ---- occurrences that only form when another one is taken out ----------------------------------
+
+/// all strings up to length 6 over {a, b} and up to length 4 over {é, ü} x needles up to length 3:
+/// `aabb` without `ab` is `ab` (one pass, left to right), not the empty string
+pub struct Reforming {
+    hay: Vec<String>,
+    needles: Vec<String>,
+}
+fn strings_over(alpha: &[char], maxlen: u32) -> Vec<String> {
+    let mut out = vec![String::new()];
+    let mut layer = vec![String::new()];
+    for _ in 0..maxlen {
+        let mut next = Vec::new();
+        for s in &layer {
+            for c in alpha {
+                let mut t = s.clone();
+                t.push(*c);
+                next.push(t);
+            }
+        }
+        out.extend(next.iter().cloned());
+        layer = next;
+    }
+    out
+}
+impl Reforming {
+    pub fn new(t: Tier) -> Reforming {
+        let mut hay = strings_over(&['a', 'b'], t.pick(6, 9));
+        hay.extend(strings_over(&['é', 'ü'], t.pick(4, 6)).into_iter().skip(1));
+        let mut needles: Vec<String> = strings_over(&['a', 'b'], 3).into_iter().skip(1).collect();
+        needles.extend(strings_over(&['é', 'ü'], 2).into_iter().skip(1));
+        Reforming { hay, needles }
+    }
+    pub fn size(&self) -> u64 {
+        (self.hay.len() * self.needles.len()) as u64
+    }
+    pub fn run(&self, idx: u64, acc: &mut Acc) {
+        let h = &self.hay[idx as usize / self.needles.len()];
+        let n = &self.needles[idx as usize % self.needles.len()];
+        let b = [("s", V::Str(h.clone())), ("n", V::Str(n.clone()))];
+        judge(acc, "remove", "s.remove(n)", &b, &Exp::Val(V::Str(r_replace(h, n, ""))));
+        judge(acc, "replace", "s.replace(n, '')", &b, &Exp::Val(V::Str(r_replace(h, n, ""))));
+        judge(acc, "replace", "s.replace(n, 'b')", &b, &Exp::Val(V::Str(r_replace(h, n, "b"))));
+        judge(acc, "split", "s.split(n)", &b, &Exp::Val(strs(r_split(h, n))));
+        judge(acc, "rsplit", "s.rsplit(n)", &b, &Exp::Val(strs(r_rsplit(h, n))));
+        judge(acc, "trimStartMatches", "s.trimStartMatches(n)", &b, &Exp::Val(V::Str(r_trim_start_matches(h, n))));
+        judge(acc, "trimEndMatches", "s.trimEndMatches(n)", &b, &Exp::Val(V::Str(r_trim_end_matches(h, n))));
+        judge(acc, "remove literal", &format!("{}.remove({})", crate::val::str_lit(h), crate::val::str_lit(n)), &[], &Exp::Val(V::Str(r_replace(h, n, ""))));
+        if r_contains(&r_replace(h, n, ""), n) {
+            acc.nontrivial(&idx);
+        }
+    }
+}
+
 // ---- strings x needles ------------------------------------------------------------------
 
 pub struct StrPairs {
@@ -730,8 +784,10 @@ pub fn replay_families(t: Tier) -> Vec<Family<'static>> {
     let m: &'static Math = Box::leak(Box::new(Math::new(t)));
     let s: &'static Shapes = Box::leak(Box::new(Shapes::new(t)));
     let cf: &'static CaseFold = Box::leak(Box::new(CaseFold::new(t)));
+    let rf: &'static Reforming = Box::leak(Box::new(Reforming::new(t)));
     vec![
         Family::new("case-folding", cf.size(), move |i, a| cf.run(i, a)),
+        Family::new("re-forming-occurrences", rf.size(), move |i, a| rf.run(i, a)),
         Family::new("string-pairs", p.size(), move |i, a| p.run(i, a)),
         Family::new("string-unary", u.size(), move |i, a| u.run(i, a)),
         Family::new("regex", r.size(), move |i, a| r.run(i, a)),
@@ -742,7 +798,7 @@ pub fn replay_families(t: Tier) -> Vec<Family<'static>> {
 
 pub fn run(t: Tier) -> i32 {
     let mut rep = Report::new(ID, t, "exploration");
-    rep.rule = "case-folding: all strings up to length 2/3 x all needles up to length 2 over {k, KELVIN SIGN, s, ß, capital ß, dotted capital I, i, combining dot, å, ANGSTROM SIGN} (lower-casing changes the UTF-8 length, so the order of the two lengths can flip) for the six containment functions in bound and literal form and toLower/toUpper; string-pairs: all strings up to length 3/4 over {a,b,A,blank,é,É,ß,İ} x all needles up to length 2 (empty, overlapping, absent, multi-byte, case-folding) for contains*/startsWith*/endsWith*/split/rsplit/replace/remove/trim*Matches against naive byte-window references; string-unary: toLower/toUpper/trim*/splitWhiteSpace/size and splitAt at every offset in [-2,len+2] and extreme ints; regex: 14 patterns (valid, invalid, oversized) x all strings up to length 2/3 x 5 replacement templates against the regex crate called directly; math: abs/sqrt/log/lg/ceil/floor/round over the numeric grid (bound and literal) and pow over all pairs of a 100-value grid against exact i128 / IEEE references; shapes: every documented function x every argument tuple of arity 0..3/4 over a one-value-per-type pool in its documented call form must fail unless the shape is documented. Non-trivial = outcome fixed by the property; distinct by index".to_string();
+    rep.rule = "re-forming-occurrences: all strings up to length 6/9 over {a,b} and 4/6 over {é,ü} x all needles up to length 3 resp. 2 for remove/replace/split/rsplit/trim*Matches (taking one occurrence out can form another: one left-to-right pass); case-folding: all strings up to length 2/3 x all needles up to length 2 over {k, KELVIN SIGN, s, ß, capital ß, dotted capital I, i, combining dot, å, ANGSTROM SIGN} (lower-casing changes the UTF-8 length, so the order of the two lengths can flip) for the six containment functions in bound and literal form and toLower/toUpper; string-pairs: all strings up to length 3/4 over {a,b,A,blank,é,É,ß,İ} x all needles up to length 2 (empty, overlapping, absent, multi-byte, case-folding) for contains*/startsWith*/endsWith*/split/rsplit/replace/remove/trim*Matches against naive byte-window references; string-unary: toLower/toUpper/trim*/splitWhiteSpace/size and splitAt at every offset in [-2,len+2] and extreme ints; regex: 14 patterns (valid, invalid, oversized) x all strings up to length 2/3 x 5 replacement templates against the regex crate called directly; math: abs/sqrt/log/lg/ceil/floor/round over the numeric grid (bound and literal) and pow over all pairs of a 100-value grid against exact i128 / IEEE references; shapes: every documented function x every argument tuple of arity 0..3/4 over a one-value-per-type pool in its documented call form must fail unless the shape is documented. Non-trivial = outcome fixed by the property; distinct by index".to_string();
     for f in replay_families(t) {
         rep.run_family(f);
     }
